@@ -18,6 +18,10 @@ return `Option` and their `none` cases are characterised exactly below.
     era boundaries                                            ts_sub_shortest, ts_era_safe
   adding it back restores the timestamp                       ts_sub_add_back, ts_add_sub_cancel, ts_sub_of_add
   (is_before is the sign of that difference)                  ts_is_before
+  (order/algebra consequences: antisymmetry away from the
+    era midpoint, group action of +, wire commutes with +)    ts_sub_self, ts_sub_antisymm, ts_before_asymm,
+                                                              ts_add_add, ts_add_wire
+  (saturating ops are commutative / monotone, abs ≥ 0)        dur_add_comm_mono, dur_abs_nonneg, dur_mul_mono
   duration + − neg abs scaling saturate, never wrap           dur_add_saturates, dur_sub_saturates,
                                                               dur_mul_saturates, dur_neg_saturates,
                                                               dur_abs_saturates, dur_absdiff_saturates,
@@ -477,6 +481,69 @@ theorem pd_div_exact (d k : Int) (hd : inI128 d) (hk : k ≠ 0) :
 example : pdAdd I128_MAX 1 = I128_MAX ∧ pdSub I128_MIN 1 = I128_MIN ∧ pdMul I128_MIN (-1) = I128_MAX ∧
     pdDiv I128_MIN (-1) = some I128_MAX ∧ pdDiv (-7) 2 = some (-3) ∧ pdDiv 1 0 = none := by decide
 
+/-! ### order and algebra laws (consequences the daemon relies on when it compares and accumulates times) -/
+
+/-- a timestamp is at distance 0 from itself, across any number of eras -/
+theorem ts_sub_self (a k : Int) : tsSub (a + k * 18446744073709551616) a = 0 := by
+  unfold tsSub wrapS64; simp only; split <;> omega
+
+/-- swapping the operands negates the difference, except at the era midpoint (distance exactly 2⁶³),
+    where both orders give `i64::MIN` — the one place where "before" is ambiguous -/
+theorem ts_sub_antisymm (a b : Int) :
+    (tsSub a b ≠ I64_MIN → tsSub b a = - tsSub a b) ∧ (tsSub a b = I64_MIN → tsSub b a = I64_MIN) := by
+  unfold tsSub wrapS64 I64_MIN; simp only
+  refine ⟨?_, ?_⟩ <;> intro h <;> (repeat' split) <;> omega
+
+/-- `is_before` is asymmetric: two timestamps are never each before the other, unless they are exactly
+    half an era apart -/
+theorem ts_before_asymm (a b : Int) (h : tsSub a b ≠ I64_MIN) :
+    ¬ (isBefore a b = true ∧ isBefore b a = true) := by
+  have := (ts_sub_antisymm a b).1 h
+  unfold isBefore; simp only [decide_eq_true_eq]; omega
+
+/-- … and at the midpoint both directions claim "before" (documented ambiguity of wrapping time) -/
+example : isBefore 0 9223372036854775808 = true ∧ isBefore 9223372036854775808 0 = true := by decide
+
+/-- adding durations one after the other is adding their exact sum (wrapping addition is a group action),
+    so no order of corrections can lose an era -/
+theorem ts_add_add (a d e : Int) :
+    tsAddDur (tsAddDur a d) e = tsAddDur a (d + e) ∧ tsSubDur a d = tsAddDur a (-d) := by
+  unfold tsAddDur tsSubDur wrapU64; omega
+
+/-- the wire value of `x + d` is the wire value of `x` advanced by `d` -/
+theorem ts_add_wire (x d : Int) : tsAddDur (wrapU64 x) d = wrapU64 (x + d) := by
+  unfold tsAddDur wrapU64; omega
+
+/-- saturating addition is commutative and monotone in each argument; `abs` and `abs_diff` are never
+    negative and `abs_diff` is symmetric except that i64::MIN is not mirrored -/
+theorem dur_add_comm_mono (a a' b : Int) :
+    durAdd a b = durAdd b a ∧ (a ≤ a' → durAdd a b ≤ durAdd a' b) ∧ (a ≤ a' → durSub a b ≤ durSub a' b) ∧
+      (a ≤ a' → durSub b a' ≤ durSub b a) := by
+  unfold durAdd durSub satI64 clampInt I64_MIN I64_MAX
+  refine ⟨?_, ?_, ?_, ?_⟩
+  · rw [Int.add_comm]
+  all_goals (intro h; (repeat' split) <;> omega)
+
+theorem dur_abs_nonneg (d a b : Int) :
+    0 ≤ durAbs d ∧ 0 ≤ durAbsDiff a b ∧ (durAbs d = 0 ↔ d = 0) ∧ durAbsDiff a b = durAbsDiff b a := by
+  unfold durAbsDiff durAbs durSub satI64 clampInt I64_MIN I64_MAX
+  refine ⟨?_, ?_, ?_, ?_⟩
+  · (repeat' split) <;> omega
+  · (repeat' split) <;> omega
+  · constructor <;> intro h
+    · revert h; (repeat' split) <;> omega
+    · subst h; decide
+  · (repeat' split) <;> omega
+
+example : durAbsDiff I64_MIN I64_MAX = I64_MAX ∧ durAbsDiff I64_MAX I64_MIN = I64_MAX ∧
+    durAbs I64_MIN = I64_MAX ∧ durAdd 3 (-5) = -2 := by decide
+
+/-- monotone scaling: a non-negative scalar keeps the order of durations, also under saturation -/
+theorem dur_mul_mono (d d' k : Int) (hk : 0 ≤ k) (h : d ≤ d') : durMul d k ≤ durMul d' k := by
+  have hm : d * k ≤ d' * k := Int.mul_le_mul_of_nonneg_right h hk
+  unfold durMul satI64 clampInt I64_MIN I64_MAX
+  (repeat' split) <;> omega
+
 end NtpVerif.C32
 
 #print axioms NtpVerif.C32.ts_sub_shortest
@@ -519,3 +586,11 @@ end NtpVerif.C32
 #print axioms NtpVerif.C32.pt_add_sub_cancel
 #print axioms NtpVerif.C32.pd_saturates
 #print axioms NtpVerif.C32.pd_div_exact
+#print axioms NtpVerif.C32.ts_sub_self
+#print axioms NtpVerif.C32.ts_sub_antisymm
+#print axioms NtpVerif.C32.ts_before_asymm
+#print axioms NtpVerif.C32.ts_add_add
+#print axioms NtpVerif.C32.ts_add_wire
+#print axioms NtpVerif.C32.dur_add_comm_mono
+#print axioms NtpVerif.C32.dur_abs_nonneg
+#print axioms NtpVerif.C32.dur_mul_mono
